@@ -73,12 +73,49 @@ def shapesysReuse (s : Spec K) : Bool :=
     (seen ++ r.1, bad || r.2)
   (samples.foldl step ([], false)).2
 
+/-- first loop over the raw spec: a repeated channel name, a repeated sample name inside a channel, or a
+`type/name` key repeated on one sample (`InvalidModel`) -/
+def hasDup (xs : List String) : Bool :=
+  match xs with
+  | [] => false
+  | x :: rest => rest.contains x || hasDup rest
+
+def specDuplicates (s : Spec K) : Bool :=
+  hasDup (s.channels.map (Â·.name)) ||
+  s.channels.any (fun c => hasDup (c.samples.map (Â·.name)) ||
+    c.samples.any fun sm => hasDup (sm.mods.map fun m => m.type.str ++ "/" ++ m.name))
+
 /-- `_nominal_builder.append`: every defined sample must have the channel's bin count -/
 def nominalLengthsOK (s : Spec K) (cfg : Config) : Bool :=
   cfg.channels.all fun c => cfg.samples.all fun sm =>
     match findSample s c sm with
     | some x => x.data.length == cfg.nbOf c
     | none => true
+
+/-- size of the shapefactor parameter set named `n`: the bin count of its first declaring cell -/
+def sfFirstSize (s : Spec K) (cfg : Config) (n : String) : Option Nat :=
+  ((declaringCells s cfg .shapefactor).find? (Â·.1 == n)).map fun (_, x, _) => x.data.length
+
+/-- the checks made when a declared modifier is appended to its builder, for one cell of the sorted walk -/
+def modAppendError (s : Spec K) (cfg : Config) (x : Sample K) (n : String) (t : ModType) : Option Err :=
+  match findMod x n t with
+  | none => none
+  | some md =>
+    match t with
+    | .histosys => if x.data.length != md.lo.length || x.data.length != md.hi.length then some .invalidModifier else none
+    | .shapesys | .staterror => if x.data.length != md.lo.length then some .invalidModifier else none
+    | .shapefactor => if sfFirstSize s cfg n != some x.data.length then some .invalidModifier else none
+    | _ => none
+
+/-- the sorted walk `for c in channels: for s in samples: nominal.append; for m in modifiers: builder.append`:
+first failure, if any -/
+def walkError (s : Spec K) (cfg : Config) : Option Err :=
+  cfg.channels.findSome? fun c => cfg.samples.findSome? fun sm =>
+    match findSample s c sm with
+    | none => none
+    | some x =>
+      if x.data.length != cfg.nbOf c then some .invalidModel
+      else cfg.modifiers.findSome? fun (n, t) => modAppendError s cfg x n t
 
 /-- per-channel block of the lower / upper variation (histosys absolute, normsys broadcast factor) -/
 def varBlk (s : Spec K) (cfg : Config) (n : String) (t : ModType) (sm : String) (hiSide : Bool) (c : String) : List K :=
@@ -151,6 +188,12 @@ def reindexError (s : Spec K) (cfg : Config) (sl : List (String Ã— Nat Ã— Nat)) 
       let k := (selection sl n).length
       if k != m.count true && k != 1 then some .pyValueError else none
 
+/-- `ParamViewer(..., par_selection)` in every `*_combined.__init__`: `par_map[name]` raises `KeyError` for a
+modifier that is listed in `config.modifiers` but for which no builder produced a parameter set (its only
+declarations were shadowed by "last definition wins") -/
+def orphanError (cfg : Config) (ps : List (Paramset K)) : Option Err :=
+  if cfg.modifiers.any (fun (n, _) => !(ps.any (Â·.name == n))) then some .pyKeyError else none
+
 /-- `config.set_poi` -/
 def poiCheck (poi : Option String) (ps : List (Paramset K)) (sl : List (String Ã— Nat Ã— Nat)) : Except Err (Option Nat) :=
   match poi with
@@ -162,14 +205,19 @@ def poiCheck (poi : Option String) (ps : List (Paramset K)) (sl : List (String Ã
 
 def buildModel (P : Prim K) (s : Spec K) (st : Settings K) : Except Err (Model K) :=
   let cfg := mkConfig s
-  if shapesysReuse s then .error .invalidModel else
-  if !nominalLengthsOK s cfg then .error .invalidModel else
+  if specDuplicates s || shapesysReuse s then .error .invalidModel else
+  match walkError s cfg with
+  | some e => .error e
+  | none =>
   if !finalizeLengthsOK s cfg .histosys then .error .invalidModifier else
   if !finalizeLengthsOK s cfg .shapesys then .error .invalidModifier else
   if !finalizeLengthsOK s cfg .staterror then .error .invalidModifier else
   match createParamsets P s cfg with
   | .error e => .error e
   | .ok ps =>
+    match orphanError cfg ps with
+    | some e => .error e
+    | none =>
     match reindexError s cfg (parSlices ps) .shapesys with
     | some e => .error e
     | none =>
